@@ -781,4 +781,85 @@ theorem reads_important (k : List Char) (hk : stopStr k = true) :
   simpa [significant] using this
 
 
+/-! ## property-level theorems -/
+
+def importantToks (important : Bool) : List Token :=
+  if important then [(.delim, ['!']), (.ident, S "important")] else []
+
+theorem reads_tokenise (s k : List Char) (E : List Token) (h : Reads s k E) :
+    ∃ n', k.length ≤ n' ∧ significant (tokenise (s ++ k)) = E ++ significant (tokAux n' k []) := by
+  obtain ⟨n', T, hn', e, hs⟩ := h (s ++ k).length [] (Nat.le_refl _)
+  refine ⟨n', hn', ?_⟩
+  simp only [tokenise]
+  rw [e, tokAux_acc, significant_append]
+  simp [hs]
+
+/-- **css_writer_retokenises** — for every list of values `vs` handed to the declaration writer of `css.go`
+    (`writeDeclaration`, with `writeFunction` for nested functions, including the `/`+`*` guard of e7baddf), every
+    `important` flag and every context `k` that starts with a stop code point (`;`, `}`, white space, …): if every
+    lexeme is a closed token of its declared type for the independent tokeniser (`valsOk`: `lexOk` = "followed by a
+    space it reads as exactly this token", punctuation has its one-byte lexeme, function arguments are pairwise safe
+    to write back to back, `sepOk`), then the independent tokeniser reads the written bytes followed by `k` as exactly
+    the tokens of `vs` in order (functions: name, arguments, `)`; a quoted url: `url(`, string, `)`), then `!` and
+    `important` if set, then the tokens of `k`: no two tokens merge, none splits, no comment or string opens. -/
+theorem css_writer_retokenises (vs : List Tok) (important : Bool) (k : List Char)
+    (hv : valsOk vs = true) (hk : stopStr k = true) :
+    ∃ n', k.length ≤ n' ∧
+      significant (tokenise (writeDeclaration vs important ++ k)) =
+        significant (flatArgs vs) ++ importantToks important ++ significant (tokAux n' k []) := by
+  simp only [writeDeclaration]
+  cases important with
+  | false =>
+    simp only [importantToks, Bool.false_eq_true, if_false, List.append_nil]
+    exact reads_tokenise _ k _ (reads_vals vs none true k hv hk)
+  | true =>
+    simp only [importantToks, if_true]
+    have hk' : stopStr (S "!important" ++ k) = true := by
+      simp [S, stopStr, U, isName, isNameStart, isDigit, isNl]
+    have r1 := reads_vals vs none true (S "!important" ++ k) hv hk'
+    have r2 := reads_important k hk
+    exact reads_tokenise _ k _ (Reads.append r1 r2)
+
+example : valsOk [.mk .ident (S "a\\31 ") [], .mk .number (S "1") [], .mk .ident (S "em") [],
+    .mk .function (S "calc(") [.mk .dimension (S "1px") [], .mk .whitespace (S " ") [], .mk .delim (S "+") [],
+      .mk .whitespace (S " ") [], .mk .dimension (S "-2px") []], .mk .delim (S "/") [], .mk .delim (S "*") [],
+    .mk .url (S "url(\"a b\")") [], .mk .ident (S "b") []] = true := by decide
+
+/-- the full statement: the same conclusion from "every lexeme is a token of its type" alone, without the condition
+    on neighbours inside functions.  It is false: `writeFunction` writes the arguments back to back. -/
+def css_writer_retokenises_full : Prop :=
+  ∀ (vs : List Tok) (important : Bool) (k : List Char), lexemesOk vs = true → stopStr k = true →
+    ∃ n', k.length ≤ n' ∧
+      significant (tokenise (writeDeclaration vs important ++ k)) =
+        significant (flatArgs vs) ++ importantToks important ++ significant (tokAux n' k [])
+
+/-- witness: the tokens `f(` `red` `10%` `)` — what `minifyTokens` makes of `f(rgb(255,0,0)10%)` — are written
+    `f(red10%)`, which reads `f(` `red10` `%` `)` (known finding K-C09-CSS-1, reproduced on the real code) -/
+theorem css_writer_retokenises_counterexample : ¬ css_writer_retokenises_full := by
+  intro h
+  obtain ⟨n', _, e⟩ := h [.mk .function (S "f(") [.mk .ident (S "red") [], .mk .percentage (S "10%") []]] false [';']
+    (by decide) (by decide)
+  have e2 := congrArg (List.take 3) e
+  have l : List.take 3 (significant (tokenise (writeDeclaration
+      [.mk .function (S "f(") [.mk .ident (S "red") [], .mk .percentage (S "10%") []]] false ++ [';']))) =
+      [(.function, S "f("), (.ident, S "red10"), (.delim, S "%")] := by decide
+  rw [l] at e2
+  simp [flatArgs, flatTok, significant, importantToks, S] at e2
+
+open Verif.Model.C09Css in
+/-- **css_declaration_retokenises** — the same for the whole declaration minifier of the model
+    (`minifyDeclaration` = `parseDeclaration`, `minifyTokens`, `minifyProperty`, writer): whenever the model is defined
+    on the components, did not take the raw path and the values it chose (`declPlan`) are admissible, the bytes it
+    writes read back as exactly those values. -/
+theorem css_declaration_retokenises (o : Opts) (prop : List Char) (comps : List Tok) (p : Plan) (k : List Char)
+    (hp : declPlan o prop comps = some p) (hr : p.raw = false) (hv : valsOk p.toks = true) (hk : stopStr k = true) :
+    minifyDeclaration o prop comps = some (writePlan p) ∧
+    ∃ n', k.length ≤ n' ∧
+      significant (tokenise (writePlan p ++ k)) =
+        significant (flatArgs p.toks) ++ importantToks p.important ++ significant (tokAux n' k []) := by
+  refine ⟨by rw [minifyDeclaration_eq_plan, hp]; rfl, ?_⟩
+  simp only [writePlan, hr, Bool.false_eq_true, if_false]
+  exact css_writer_retokenises p.toks p.important k hv hk
+
+
 end Verif.Proofs.C09Css
